@@ -894,9 +894,17 @@ def main(argv):
     fc = []
     if model_ok:
         # ---- FLAT: exhaustive operator sequences, model vs implementation
-        fc = flat_cases(tier, rng) + comment_cases() + err_cases()
+        # the conversion-error arm of Rule::number (model item IBadNum, rendered as a hex literal above i64)
+        # has a concrete instance only while some number token fails to convert: probe the built parser
+        probe = c.harness_lines_resilient(h, "parse10", [c.hexs("0x8000000000000000")])[0]
+        bad_num_exists = not probe.startswith("E ")
+        fc = flat_cases(tier, rng) + comment_cases() + (err_cases() if bad_num_exists else [])
         r = run_stream(h, res, "PARSE-flat", fc)
         if r:
+            res.streams["PARSE-flat"]["conversion_error_cases"] = (
+                "10 (a hex literal above i64 does not convert: F25 open)" if bad_num_exists else
+                "0 (every number token the grammar admits converts since the F25 repair; the model's IBadNum arm "
+                "has no concrete rendering and is not exercised)")
             res.streams["PARSE-flat"]["comment_pairs"] = check_comment_pairs(res, fc, r[1], r[2])
             evaluations += len(fc)
             validated += len(fc) - res.streams["PARSE-flat"]["mismatches"]
